@@ -242,15 +242,16 @@ Definition tok_consts : tokconsts :=
 Definition last_tok (st : pstate) : option rtok := last_non_ws tok_consts (rev (firstn (pos st) toks)).
 
 (* the alternatives of a non-loop method *)
-Fixpoint run_alts (m : meth) (mark : nat) (start_tok : option rtok) (prev_invalid : bool) (alts : list ialt) (st : pstate) : R :=
+Fixpoint run_alts (m : meth) (mark : nat) (start_tok : option rtok) (prev_invalid : bool) (alts : list ialt) (e0 : env) (st : pstate) : R :=
   match alts with
   | [] => (Ok VNone, if m_without_invalid m then with_invalid st prev_invalid else st)
   | a :: alts' =>
       let restore st := if m_without_invalid m then with_invalid st prev_invalid else st in
       if a_guard a && negb (invalid st)
-      then run_alts m mark start_tok prev_invalid alts' (with_pos st mark)      (* self.call_invalid_rules is falsy *)
+      then run_alts m mark start_tok prev_invalid alts' e0 (with_pos st mark)   (* self.call_invalid_rules is falsy *)
       else
-        match run_conjs (a_conjs a) [] st with
+        (* names bound by earlier alternatives of the same call stay visible: they are locals of the method *)
+        match run_conjs (a_conjs a) e0 st with
         | (Ok v, e, st') =>
             if truthy v
             then if a_locations a && (match last_tok st' with None => true | Some _ => false end)
@@ -266,19 +267,19 @@ Fixpoint run_alts (m : meth) (mark : nat) (start_tok : option rtok) (prev_invali
               let st'' := with_pos st' mark in
               if a_has_cut a && (match env_get e "cut" with Some c => truthy c | None => false end)
               then (Ok VNone, restore st'')
-              else run_alts m mark start_tok prev_invalid alts' st''
+              else run_alts m mark start_tok prev_invalid alts' e st''
         | (other, _, st') => (other, st')
         end
   end.
 
 (* the single alternative of a _loop rule: while (...): children.append(action); mark = self._mark() *)
-Fixpoint run_loop (fuel : nat) (m : meth) (a : ialt) (mark : nat) (start_tok : option rtok) (children : list value) (st : pstate) : R :=
+Fixpoint run_loop (fuel : nat) (m : meth) (a : ialt) (mark : nat) (start_tok : option rtok) (children : list value) (e0 : env) (st : pstate) : R :=
   match fuel with
   | O => (OutOfFuel, st)
   | S f =>
       if a_guard a && negb (invalid st) then (Ok (VList children), with_pos st mark)
       else
-      match run_conjs (a_conjs a) [] st with
+      match run_conjs (a_conjs a) e0 st with
       | (Ok v, e, st') =>
           if truthy v
           then if a_locations a && (match last_tok st' with None => true | Some _ => false end)
@@ -287,7 +288,7 @@ Fixpoint run_loop (fuel : nat) (m : meth) (a : ialt) (mark : nat) (start_tok : o
                let e' := if a_locations a then loc_env start_tok (last_tok st') e
                          else (match start_tok with Some _ => loc_env start_tok None e | None => e end) in
                match aeval (a_action a) e' with
-               | Some v => run_loop f m a (pos st') start_tok (children ++ [v])%list st'
+               | Some v => run_loop f m a (pos st') start_tok (children ++ [v])%list e st'
                | None => (Raise (XNameError (a_action a)), st')
                end
           else
@@ -307,13 +308,13 @@ Definition run_body (fuel : nat) (m : meth) (st : pstate) : R :=
   let go (start_tok : option rtok) (st1 : pstate) : R :=
     if m_loop m then
       match m_alts m with
-      | [a] => match run_loop fuel m a mark start_tok [] st1 with
+      | [a] => match run_loop fuel m a mark start_tok [] [] st1 with
                | (Ok v, st2) => (Ok v, if m_without_invalid m then with_invalid st2 prev else st2)
                | other => other
                end
       | _ => (Raise XAssertion, st1)
       end
-    else run_alts m mark start_tok prev (m_alts m) st1 in
+    else run_alts m mark start_tok prev (m_alts m) [] st1 in
   if m_locations m
   then match peek st0 with
        | (Some t, st1) => go (Some t) st1
